@@ -1,11 +1,17 @@
 import Driver.Codec
+import PanderaModel.Generated.ScopeMap
+import PanderaModel.Generated.BuiltinChecks
 open Lean Pandera
 
 structure Case where
   schema : Schema
   frame : Frame
-  depth : Depth := .schemaAndData
-  scopes : ScopeTable
+  depth : Depth
+  deriving FromJson
+
+structure BCase where
+  b : Builtin
+  vals : List Val
   deriving FromJson
 
 def kRegion (S : Schema) (D : Frame) : Bool :=
@@ -20,14 +26,21 @@ def kRegion (S : Schema) (D : Frame) : Bool :=
       | none => false)
 
 def answer (j : Json) : Except String Json := do
-  let c : Case ← fromJson? j
-  let errs := frameErrors c.scopes c.depth c.schema c.frame
-  return Json.mkObj [
-    ("wf", toJson c.frame.WF),
-    ("errors", toJson errs),
-    ("accepts", toJson errs.isEmpty),
-    ("sat", toJson (decide (Spec.Sat c.schema c.frame))),
-    ("inK", toJson (kRegion c.schema c.frame))]
+  match j.getObjVal? "mode" with
+  | .ok (.str "builtin") =>
+    let c : BCase ← fromJson? j
+    return Json.mkObj [
+      ("doc", toJson (c.vals.map (docPred c.b))),
+      ("gen", toJson (c.vals.map (evalVia Generated.pandasBuiltins c.b)))]
+  | _ =>
+    let c : Case ← fromJson? j
+    let errs := frameErrors Generated.generatedScopes c.depth c.schema c.frame
+    return Json.mkObj [
+      ("wf", toJson c.frame.WF),
+      ("errors", toJson errs),
+      ("accepts", toJson errs.isEmpty),
+      ("sat", toJson (decide (Spec.Sat c.schema c.frame))),
+      ("inK", toJson (kRegion c.schema c.frame))]
 
 def main : IO Unit := do
   lineLoop (← IO.getStdin) (← IO.getStdout) answer
